@@ -56,7 +56,7 @@ PROPS = {
                      "dischargers and a guard-checked justification table",
     },
     "C11": {
-        "rules": [r_fmt.lexicon_rows_reader, r_feat.run, r_feat.rawinput, r_feat.csvdefault, r_misc.parallel,
+        "rules": [r_fmt.lexicon_rows_reader, r_feat.run, r_feat.rawinput, r_feat.csvdefault, r_misc.lexmap_shape, r_misc.parallel,
                   kind_scope("dictionary::lexicon", "dictionary::unknown")],
         "explanation": "FMT(reader side): parse_csv stores CSV column 1, 2, 3 into left_id, "
                        "right_id, word_cost (column -> WordParam::new parameter -> field, KIND "
@@ -431,7 +431,8 @@ _ADDED = {
             "VERIFYMAP: every Lexicon/UnkHandler::map_connection_ids call acts on a component of "
             "a constructed dictionary or on a new component that verify() has accepted on every "
             "path (the mapping table is indexed by these ids).", "dominance rule on verify()"),
-    "C11": ("FEATSPAN: abstract interpretation of the csv-core driving loop of "
+    "C11": ("LEXMAP: surfaces are stored verbatim as trie keys, every homograph id of a matched "
+            "posting list is yielded, and only an empty unquoted surface skips a row. FEATSPAN: abstract interpretation of the csv-core driving loop of "
             "Lexicon::parse_csv over (field counter 0..4+, length variable {zero, only feature "
             "bytes of this row, other}, base {rebased at the end of this row's cost field, "
             "stale}, constant boolean flags): at the statement that cuts the feature string "
